@@ -4,11 +4,13 @@
 
   Raw term language (what the harness generates and hands, untransformed, to both Lcapy and the driver):
 
-      prod c [atoms]     c · Π atoms,   atoms:  t^k | (a t + b) | exp(a t) | sin/cos(w t + φ) | sinh/cosh(a t)
+      prod c [atoms]     c · Π atoms,   atoms:  t^k | (a t + b) | exp(a t) | exp(a t + b) | sin/cos(w t + φ) | sinh/cosh(a t)
                                                | Heaviside(a t + b) | DiracDelta(a t + b, n) | rect/tri/ramp/rampstep(a t + b)
       undef c a b        c · x(a t + b)                          (x an undefined function)
       undefExp c a       c · x(t) · exp(a t)
       dundef c n         c · dⁿx/dtⁿ
+      dundefAt c n a b   c · dⁿ/dtⁿ [x(a t + b)]                 (x causal)
+      deltaX c a b       c · x(t) · δ(a t + b)                   (sifting)
       iundef c           c · ∫_{−∞}^{t} x(τ) dτ
       convXY c           c · ∫_0^t x(τ) y(t−τ) dτ
       convExpX c a       c · ∫_0^∞ exp(a τ) x(t−τ) dτ
@@ -33,6 +35,8 @@ inductive Atom (K : Type) where
   | tpow (k : Nat)
   | lin (a b : K)
   | exp (a : K)
+  /-- `exp(a t + b)` with a constant offset in the exponent (SymPy keeps it inside the exponential) -/
+  | expb (a b : K)
   | trig (isCos : Bool) (w ph : K)
   | hyp (isCosh : Bool) (a : K)
   | step (a b : K)
@@ -45,6 +49,8 @@ inductive Raw (K : Type) where
   | undef (c a b : K)
   | undefExp (c a : K)
   | dundef (c : K) (n : Nat)
+  | dundefAt (c : K) (n : Nat) (a b : K)
+  | deltaX (c a b : K)
   | iundef (c : K)
   | convXY (c : K)
   | convExpX (c a : K)
@@ -93,6 +99,7 @@ def applySmooth (E : K → K) (J : K) (f : ExpPoly K) : Atom K → ExpPoly K
   | .tpow k => iter tmul k f
   | .lin a b => smul a (tmul f) ++ smul b f
   | .exp a => expWeight E a f
+  | .expb a b => smul (E b) (expWeight E a f)
   | .trig false w ph =>   -- sin(wt+φ) = (e^{jφ} e^{jwt} − e^{−jφ} e^{−jwt}) / (2j)
       smul (E (J * ph) / (two * J)) (expWeight E (J * w) f)
         ++ smul (-(E (-(J * ph)) / (two * J))) (expWeight E (-(J * w)) f)
@@ -111,19 +118,19 @@ def isSmooth : Atom K → Bool
 
 def deltaSel : Atom K → Option (Nat × K × K)
   | .delta n a b => some (n, a, b)
-  | .tpow _ => none | .lin _ _ => none | .exp _ => none | .trig _ _ _ => none | .hyp _ _ => none
+  | .tpow _ => none | .lin _ _ => none | .exp _ => none | .expb _ _ => none | .trig _ _ _ => none | .hyp _ _ => none
   | .step _ _ => none | .fn _ _ _ => none
 
 /-- forward steps `u(a t + b)`, `a ≥ 0` -/
 def stepSel : Atom K → Option (K × K)
   | .step a b => if (0 : K) ≤ a then some (a, b) else none
-  | .tpow _ => none | .lin _ _ => none | .exp _ => none | .trig _ _ _ => none | .hyp _ _ => none
+  | .tpow _ => none | .lin _ _ => none | .exp _ => none | .expb _ _ => none | .trig _ _ _ => none | .hyp _ _ => none
   | .delta _ _ _ => none | .fn _ _ _ => none
 
 /-- time-reversed steps `u(a t + b)`, `a < 0`: on until `T = −b/a` -/
 def offSel : Atom K → Option K
   | .step a b => if (0 : K) ≤ a then none else some (-(b / a))
-  | .tpow _ => none | .lin _ _ => none | .exp _ => none | .trig _ _ _ => none | .hyp _ _ => none
+  | .tpow _ => none | .lin _ _ => none | .exp _ => none | .expb _ _ => none | .trig _ _ _ => none | .hyp _ _ => none
   | .delta _ _ _ => none | .fn _ _ _ => none
 
 /-- meaning of `c · Π atoms` without `fn` atoms.
@@ -167,6 +174,12 @@ def signalDerivN : Nat → Signal K → Signal K
   | 0, x => x
   | n + 1, x => Signal.deriv (signalDerivN n x)
 
+/-- the signal is an ordinary function continuous at `tau`: no impulse, no step switching on exactly at `tau` -/
+def contAt (f : ExpPoly K) (tau : K) : Bool :=
+  f.all (fun t => match t with
+    | .ep _ _ _ d => decide (d ≠ tau)
+    | .dl _ _ _ => false)
+
 /-- The signal denoted by a raw term (only its `t ≥ 0⁻` part matters). -/
 def sem (env : Env K) : Raw K → Option (ExpPoly K)
   | .prod c fs => semProd env.E env.J c fs
@@ -175,6 +188,18 @@ def sem (env : Env K) : Raw K → Option (ExpPoly K)
       if (b ≤ (0 : K)) then some (smul c (delay (-(b / a)) (scale a env.xsig.post))) else none
   | .undefExp c a => some (smul c (expWeight env.E a env.xsig.post))
   | .dundef c n => some (smul c (signalDerivN n env.xsig).post)
+  | .dundefAt c n a b =>
+      -- dⁿ/dtⁿ of the causal signal x(a (t − τ)), τ = −b/a ≥ 0 (distributional derivative: zero initial conditions)
+      if (b ≤ (0 : K)) then some (smul c (derivN n (delay (-(b / a)) (scale a env.xsig.post)))) else none
+  | .deltaX c a b =>
+      -- x(t)·δ(a t + b) = x(τ)·δ(t − τ)/a, τ = −b/a (a > 0); nothing when the impulse lies before the origin.
+      -- x must be continuous at τ: no delta in x and no step of x exactly at τ (`none` otherwise)
+      let tau := -(b / a)
+      if (0 : K) ≤ tau then
+        if contAt env.xsig.post tau then
+          some [.dl (c * evalAt env.E env.xsig.post tau / a) 0 tau]
+        else none
+      else some []
   | .iundef c => some (smul c (integ env.xsig.post))
   | .convXY c => some (smul c (conv env.xsig.post env.ysig))
   | .convExpX c a => some (smul c (conv [.ep 1 0 a 0] env.xsig.post))
@@ -186,13 +211,13 @@ def specValue (env : Env K) (r : Raw K) : Option K :=
 /-! ### mirror of `LaplaceTransformer.term` -/
 
 inductive Branch where
-  | const | exp | sinCos | function | func | funcExp | derivUndef | integral | sympy
+  | const | exp | sinCos | function | func | funcExp | derivUndef | integral | sympy | deltaUndef
 deriving Repr, DecidableEq
 
 def Branch.name : Branch → String
   | .const => "const" | .exp => "exp" | .sinCos => "sin_cos" | .function => "function"
   | .func => "func" | .funcExp => "func_exp" | .derivUndef => "derivative_undef"
-  | .integral => "integral" | .sympy => "sympy"
+  | .integral => "integral" | .sympy => "sympy" | .deltaUndef => "delta_undef"
 
 /-- `remove_heaviside` (drops exact `Heaviside(t)` factors), SymPy's automatic merging of
     `exp(a t)·exp(b t)` and of powers of `t`. Returns the normalised atom list:
@@ -264,6 +289,10 @@ def lcapyTerm (env : Env K) : Raw K → Branch × Option K
     | [.exp a] => (.exp, some (c / (s - a)))
     | [.trig isCos w ph] => (.sinCos, some (c * sinCosFormula env 0 isCos w ph 0))
     | [.exp a, .trig isCos w ph] => (.sinCos, some (c * sinCosFormula env a isCos w ph 0))
+    -- `exp(α t + β)`: `alpha, beta = scale_shift(exparg, t)` … `if beta != 0: E = exp(beta) * E`
+    | [.expb a be, .trig isCos w ph] => (.sinCos, some (c * (env.E be * sinCosFormula env a isCos w ph 0)))
+    | [.expb al be, .trig isCos w ph, .step a b] =>
+        if a = 1 then (.sinCos, some (c * (env.E be * sinCosFormula env al isCos w ph (-b)))) else sympyBranch env c fs
     | [.trig isCos w ph, .step a b] =>
         if a = 1 then (.sinCos, some (c * sinCosFormula env 0 isCos w ph (-b))) else sympyBranch env c fs
     | [.exp al, .trig isCos w ph, .step a b] =>
@@ -282,6 +311,22 @@ def lcapyTerm (env : Env K) : Raw K → Branch × Option K
       (.func, some (c * (Xof env (env.s / a) / a * (if b = 0 then 1 else env.E (env.s * b / a)))))
   | .undefExp c a => (.funcExp, some (c * Xof env (env.s - a)))
   | .dundef c n => (.derivUndef, some (c * derivUndefFormula env n))
+  | .dundefAt c n a b =>
+      -- `derivative_undef` on `Derivative(x(a t + b), t, n)`: `s^n` times `self.func(x(a t + b))` when the source applies the
+      -- similarity/shift theorems to the differentiated function (GENERATED flag), else `s^n X(s)` whatever the argument
+      if env.zic then
+        (.derivUndef, some (c * ((if Gen.derivAppliesShift
+            then Xof env (env.s / a) / a * (if b = 0 then 1 else env.E (env.s * b / a))
+            else Xof env env.s) * pw env.s n)))
+      else (.derivUndef, none)
+  | .deltaX c a b =>
+      -- branch `DiracDelta(..) * x(t)` of `term`: sifting when the source implements it (GENERATED flag); the old code
+      -- returned the time function `x(t)` itself (no value at a point of the s-plane: `none`)
+      if Gen.deltaUndefSifts then
+        let tau := -(b / a)
+        if (0 : K) ≤ tau then (.deltaUndef, some (c * evalAt env.E env.xsig.post tau * env.E (-(env.s * tau)) / a))
+        else (.deltaUndef, some 0)
+      else (.deltaUndef, none)
   | .iundef c => (.integral, some (c * (Xof env env.s / env.s)))
   | .convXY c => (.integral, some (c * (Xof env env.s * Yof env env.s)))
   | .convExpX c a => (.integral, some (c * ((1 / (env.s - a)) * Xof env env.s)))
